@@ -94,6 +94,9 @@ ZOO = [
        interventions=[dict(type='sir_vx', prob=0.4, efficacy=0.8, start_year=2001, end_year=2004)]),
     _c('killer-only', {'intervention', 'deaths', 'no-disease'}, dur=6, networks=[RND], interventions=[dict(type='killer', p=0.08)]),
     _c('killer-with-sis', {'intervention', 'deaths'}, dt=0.5, dur=4, diseases=[SIS], networks=[RND], interventions=[dict(type='killer', p=0.06)]),
+    _c('deaths-table', {'deaths', 'table'}, dt=0.5, dur=6, diseases=[SIS], networks=[RND], demographics=[dict(type='deaths', death_table=dict(scale=40.0))]),
+    _c('pool-two-diseases', {'network', 'pools', 'multi'}, dt=0.5, dur=5, diseases=[dict(SIS, beta=0.1), dict(SIR, beta=0.1)],
+       networks=[dict(type='agepools', cut=15, beta=0.3, diseases=['sis', 'sir'])], demographics=[dict(type='deaths', death_rate=20)]),
     # suggested by the property checks after the first zoo pass
     _c('ebola-with-deaths', {'disease', 'deaths'}, unit='day', dt=1, start='2020-01-01', dur=30, diseases=[dict(type='ebola', beta=0.5, init_prev=0.1)], networks=[RND],
        demographics=[dict(type='deaths', death_rate=3000)]),
